@@ -207,9 +207,14 @@ def run_go_retry(ctx, cases):
     with a longer watchdog; a second timeout stands"""
     go = ctx.run_go(cases)
     bad = [i for i, a in enumerate(go) if a.startswith('timeout') or a.startswith('crash')]
+    again = 0
     for i in bad[:50]:
         go[i] = ctx.run_go([cases[i]], timeout_ms=20000, parallel=False)[0]
         ctx.count('go_answers_rerun_after_timeout')
+        if go[i].startswith('timeout'):
+            again += 1
+            if again >= 3:     # not load: the code hangs on these inputs; the remaining ones keep their first answer
+                break
     return go
 
 
@@ -231,7 +236,7 @@ def lex_compare(ctx, stream, sources, sample=2, segment_spec=False):
             ctx.violation(stream, c, g, spec[i])
         if ntokens(g) >= 3 or cl.startswith('err'):
             ctx.nontriv(c)
-        if cl == 'eof' and g.count(':', g.index(' |')) >= 4:
+        if cl == 'eof' and ' |' in g and g.count(':', g.index(' |')) >= 4:
             ctx.count('lex_multiline')
     for i in range(min(sample, len(cases))):
         j = (i * 7919 + 13) % len(cases)
